@@ -201,8 +201,13 @@ def step_set(ctx, g, h, sh, rng):
         h.items.append([3, p, fk, 5, lists])
     else:
         arg = set(some(rng.choice([0, 1, 2, 4])))
-        desc = "n%d.%s %s= %s" % (p, f, m, sorted(arg))
-        argo = set(O[x] for x in arg)
+        alias = rng.random() < 0.12
+        if alias:
+            # the operand IS the receiver (w -= w, w ^= w empty it; w |= w, w &= w leave it): the built-in handles the aliasing
+            arg = set(s)
+            ctx.count("set.operand_is_receiver")
+        desc = "n%d.%s %s= %s" % (p, f, m, "itself" if alias else sorted(arg))
+        argo = coll if alias else set(O[x] for x in arg)
         holder = {"c": coll}
 
         def do_impl():
@@ -224,14 +229,15 @@ def step_set(ctx, g, h, sh, rng):
                     sh.detach_from_sets(x, kinds)
 
         def do_sh():
+            a2 = s if alias else arg
             if m == "ior":
-                s.__ior__(arg)
+                s.__ior__(a2)
             elif m == "iand":
-                s.__iand__(arg)
+                s.__iand__(a2)
             elif m == "isub":
-                s.__isub__(arg)
+                s.__isub__(a2)
             else:
-                s.__ixor__(arg)
+                s.__ixor__(a2)
         rs = call(g, do_sh)
         h.items.append([3, p, fk, SETM.index(m), [sorted(arg)]])
     h.replies.append([0] if ri[0] == "ok" else [-1, world.CODE_OF_ERR.get(ri[1], 999)])
